@@ -234,6 +234,9 @@ func runC09(c *core.Ctx) {
 
 	// ---- R9.6 relative / absolute boundary
 	runR96(c)
+	c.Rule("R9.9", "the in-memory backend computes expiry as memcached does: now + TTL only for TTLs of at most 30 days, above that the TTL is an absolute time", 1)
+	runR99(c, "R9.9")
+	c.Share(map[string]string{"R4.15": "R9.10"}, runC04) // a touch / gat / set that skips a chunk leaves that entry with its old expiry
 	// ---- R9.8 the TTL reaches the metadata entry before success is reported
 	runR98(c)
 	// ---- R9.4 chunked metadata expiry
@@ -851,5 +854,89 @@ func runR98(c *core.Ctx) {
 			continue
 		}
 		c.OK("R9.8", key, c.P.Pos(fn.Pos()), fmt.Sprintf("%d request(s) carry the TTL for the metadata entry; every success return lies behind one", len(metaWrites)))
+	}
+}
+
+// runR99 (R9.9, shared as R17.5): the in-memory backend computes expiry the way memcached does. Every `now + TTL` in
+// package inmem is evaluated only on paths where the TTL is known to be at most 30 days (2592000 s); above that the
+// TTL is an absolute time. Without the boundary an absolute expiry a few seconds ahead keeps the entry for decades.
+func runR99(c *core.Ctx, rule string) {
+	const rel = "handlers/inmem"
+	n := 0
+	pv := &ssax.Prov{}
+	for _, fn := range pkgFuncs(c, rel) {
+		counts := map[string]int{}
+		ssax.Instrs(fn, func(ins ssa.Instruction) {
+			bo, ok := ins.(*ssa.BinOp)
+			if !ok || bo.Op != token.ADD {
+				return
+			}
+			isNow := func(v ssa.Value) bool {
+				return ssax.Any(pv.Sources(v), func(s ssax.Src) bool {
+					return s.Kind == "call" && strings.HasSuffix(ssax.CalleeName(s.Call), "time.Time).Unix")
+				})
+			}
+			isTTL := func(v ssa.Value) bool {
+				return ssax.Any(pv.Sources(v), func(s ssax.Src) bool {
+					if s.Kind != "param" {
+						return false
+					}
+					if len(s.Path) > 0 {
+						return s.Path[len(s.Path)-1] == "Exptime"
+					}
+					return types.TypeString(s.V.Type(), nil) == "uint32"
+				})
+			}
+			var ttl ssa.Value
+			switch {
+			case isNow(bo.X) && isTTL(bo.Y):
+				ttl = bo.Y
+			case isNow(bo.Y) && isTTL(bo.X):
+				ttl = bo.X
+			default:
+				return
+			}
+			n++
+			key := ordinalKey(counts, core.FuncName(fn)+"#now-plus-ttl")
+			want := strings.Join(ssax.Strings(pv.Sources(ttl)), ",")
+			bounded := false
+			for _, ec := range ssax.DomConds(bo.Block()) {
+				cb, ok := ec.Cond.(*ssa.BinOp)
+				if !ok {
+					continue
+				}
+				for _, pair := range [][2]ssa.Value{{cb.X, cb.Y}, {cb.Y, cb.X}} {
+					k, isK := ssax.ConstInt(pair[1])
+					if !isK || strings.Join(ssax.Strings(pv.Sources(pair[0])), ",") != want {
+						continue
+					}
+					op := cb.Op
+					if pair[0] == cb.Y {
+						// constant on the left: mirror
+						switch op {
+						case token.LSS:
+							op = token.GTR
+						case token.LEQ:
+							op = token.GEQ
+						case token.GTR:
+							op = token.LSS
+						case token.GEQ:
+							op = token.LEQ
+						}
+					}
+					const month = 60 * 60 * 24 * 30
+					switch {
+					case op == token.LEQ && ec.True && k == month, op == token.LSS && ec.True && k == month+1,
+						op == token.GTR && !ec.True && k == month, op == token.GEQ && !ec.True && k == month+1:
+						bounded = true
+					}
+				}
+			}
+			c.Check(bounded, rule, key, c.P.Pos(bo.Pos()), "now + TTL only for TTLs of at most 30 days",
+				"the expiry is computed as now + TTL for every non-zero TTL: memcached takes a TTL above 30 days (2592000 s) as an absolute time, so an absolute expiry a few seconds ahead keeps the entry for decades and the tier serves the key long after the expiry the client asked for")
+		})
+	}
+	if n == 0 {
+		c.Undecided(rule, "inmem#expiry", "-", "no now + TTL computation found in the in-memory backend")
 	}
 }
